@@ -1,9 +1,383 @@
 package main
 
+import (
+	"crypto"
+	"crypto/ecdsa"
+	"crypto/ed25519"
+	"crypto/elliptic"
+	"crypto/rsa"
+	_ "crypto/sha1"
+	"crypto/sha256"
+	_ "crypto/sha512"
+	"crypto/x509"
+	"encoding/asn1"
+	"encoding/json"
+	"math/big"
+	"net/url"
+	"strings"
+
+	"github.com/go-jose/go-jose/v3/jwt"
+	"github.com/google/go-tpm/legacy/tpm2"
+)
+
 // answerAsk answers one oracle question of the model by calling the *dependency* named in
-// DESIGN §3 directly — never a function of /repo.
+// DESIGN §3 directly — never a function of /repo's own logic.
 func answerAsk(kind string, q M) any {
 	switch kind {
+	case "sha256":
+		h := sha256.Sum256(unhx(q["data"].(string)))
+		return M{"bytes": hx(h[:])}
+	case "hash":
+		h := crypto.Hash(num(q["hash"]))
+		if !h.Available() {
+			return nil
+		}
+		hh := h.New()
+		hh.Write(unhx(q["data"].(string)))
+		return M{"bytes": hx(hh.Sum(nil))}
+	case "clientData":
+		// the shape of webauthn.CollectedClientData as encoding/json sees it
+		var cd struct {
+			Type         string `json:"type"`
+			Challenge    string `json:"challenge"`
+			Origin       string `json:"origin"`
+			CrossOrigin  bool   `json:"crossOrigin"`
+			TokenBinding *struct {
+				Status string `json:"status"`
+				ID     string `json:"id"`
+			} `json:"tokenBinding"`
+		}
+		if err := json.Unmarshal(unhx(q["raw"].(string)), &cd); err != nil {
+			return nil
+		}
+		return M{"type": hx([]byte(cd.Type)), "challenge": hx([]byte(cd.Challenge)), "origin": hx([]byte(cd.Origin))}
+	case "urlHost":
+		u, err := url.Parse(string(unhx(q["s"].(string))))
+		if err != nil {
+			return nil
+		}
+		return M{"bytes": hx([]byte(u.Hostname()))}
+	case "sigVerify":
+		return M{"bool": sigVerify(q["scheme"].(string), crypto.Hash(num(q["hash"])), q["key"].(M), unhx(q["msg"].(string)), unhx(q["sig"].(string)))}
+	case "x509Parse":
+		c, err := x509.ParseCertificate(unhx(q["der"].(string)))
+		if err != nil {
+			return nil
+		}
+		return certView(c)
+	case "x509CheckSig":
+		c, err := x509.ParseCertificate(unhx(q["der"].(string)))
+		if err != nil {
+			return M{"bool": false}
+		}
+		err = c.CheckSignature(x509.SignatureAlgorithm(num(q["alg"])), unhx(q["msg"].(string)), unhx(q["sig"].(string)))
+		return M{"bool": err == nil}
+	case "tpmCertInfo":
+		ad, err := tpm2.DecodeAttestationData(unhx(q["raw"].(string)))
+		if err != nil {
+			return nil
+		}
+		out := M{"magic": int64(ad.Magic), "type": int64(ad.Type), "extraData": hx(ad.ExtraData), "hasCertifyInfo": ad.AttestedCertifyInfo != nil,
+			"nameKind": "none", "nameAlg": 0, "nameValue": ""}
+		if ad.AttestedCertifyInfo != nil {
+			n := ad.AttestedCertifyInfo.Name
+			if n.Digest != nil {
+				out["nameKind"] = "digest"
+				out["nameAlg"] = int64(n.Digest.Alg)
+				out["nameValue"] = hx(n.Digest.Value)
+			} else if n.Handle != nil {
+				out["nameKind"] = "handle"
+			}
+		}
+		if enc, err := safeEncode(func() ([]byte, error) { return ad.Encode() }); err == nil {
+			out["encoded"] = hx(enc)
+		} else {
+			out["encoded"] = nil
+		}
+		return out
+	case "tpmPubArea":
+		pub, err := tpm2.DecodePublic(unhx(q["raw"].(string)))
+		if err != nil {
+			return nil
+		}
+		out := M{"nameAlg": int64(pub.NameAlg)}
+		if k, err := safeKey(pub); err == nil {
+			out["key"] = keyMat(k)
+		} else {
+			out["key"] = nil
+		}
+		if enc, err := safeEncode(func() ([]byte, error) { return pub.Encode() }); err == nil {
+			out["encoded"] = hx(enc)
+		} else {
+			out["encoded"] = nil
+		}
+		return out
+	case "tpmAlgHash":
+		h, err := tpm2.Algorithm(num(q["alg"])).Hash()
+		if err != nil {
+			return nil
+		}
+		return M{"nat": int64(h)}
+	case "asn1OctetString":
+		var raw []byte
+		rest, err := asn1.Unmarshal(unhx(q["der"].(string)), &raw)
+		if err != nil || len(rest) != 0 {
+			return nil
+		}
+		return M{"bytes": hx(raw)}
+	case "appleNonce":
+		var v struct {
+			Nonce []byte `asn1:"tag:1,explicit"`
+		}
+		if _, err := asn1.Unmarshal(unhx(q["der"].(string)), &v); err != nil {
+			return nil
+		}
+		return M{"bytes": hx(v.Nonce)}
+	case "keyDescription":
+		return keyDescView(unhx(q["der"].(string)))
+	case "hardwareDetailsOK":
+		return M{"bool": hardwareDetailsOracle(unhx(q["der"].(string)))}
+	case "safetyNet":
+		return safetyNetView(unhx(q["raw"].(string)))
 	}
 	panic("unknown ask " + kind)
+}
+
+func safeEncode(f func() ([]byte, error)) (b []byte, err error) {
+	defer func() {
+		if p := recover(); p != nil {
+			err = errPanic
+		}
+	}()
+	return f()
+}
+
+type strErr string
+
+func (e strErr) Error() string { return string(e) }
+
+var errPanic = strErr("panic")
+
+func safeKey(pub tpm2.Public) (k crypto.PublicKey, err error) {
+	defer func() {
+		if p := recover(); p != nil {
+			err = errPanic
+		}
+	}()
+	return pub.Key()
+}
+
+func curveID(c elliptic.Curve) int {
+	switch c {
+	case elliptic.P256():
+		return 1
+	case elliptic.P384():
+		return 2
+	case elliptic.P521():
+		return 3
+	}
+	return 0
+}
+
+func curveByID(id int64) elliptic.Curve {
+	switch id {
+	case 1:
+		return elliptic.P256()
+	case 2:
+		return elliptic.P384()
+	case 3:
+		return elliptic.P521()
+	}
+	return nil
+}
+
+// keyMat renders a crypto public key the way the model's KeyMat does (magnitudes without leading zeros).
+func keyMat(k crypto.PublicKey) M {
+	switch k := k.(type) {
+	case *ecdsa.PublicKey:
+		if id := curveID(k.Curve); id != 0 && k.X != nil && k.Y != nil {
+			return M{"kind": "ec", "crv": id, "x": hx(k.X.Bytes()), "y": hx(k.Y.Bytes())}
+		}
+	case *rsa.PublicKey:
+		if k.N != nil && k.E >= 0 {
+			return M{"kind": "rsa", "n": hx(k.N.Bytes()), "e": int64(k.E)}
+		}
+	case rsa.PublicKey:
+		if k.N != nil && k.E >= 0 {
+			return M{"kind": "rsa", "n": hx(k.N.Bytes()), "e": int64(k.E)}
+		}
+	case ed25519.PublicKey:
+		return M{"kind": "ed", "k": hx(k)}
+	}
+	return M{"kind": "other"}
+}
+
+func sigVerify(scheme string, h crypto.Hash, key M, msg, sig []byte) (ok bool) {
+	defer func() {
+		if p := recover(); p != nil {
+			ok = false
+		}
+	}()
+	digest := func() []byte {
+		hh := h.New()
+		hh.Write(msg)
+		return hh.Sum(nil)
+	}
+	switch scheme {
+	case "ecdsa":
+		if key["kind"] != "ec" || !h.Available() {
+			return false
+		}
+		c := curveByID(num(key["crv"]))
+		if c == nil {
+			return false
+		}
+		pub := &ecdsa.PublicKey{Curve: c, X: new(big.Int).SetBytes(unhx(key["x"].(string))), Y: new(big.Int).SetBytes(unhx(key["y"].(string)))}
+		return ecdsa.VerifyASN1(pub, digest(), sig)
+	case "eddsa":
+		if key["kind"] != "ed" {
+			return false
+		}
+		k := unhx(key["k"].(string))
+		if len(k) != ed25519.PublicKeySize {
+			return false
+		}
+		return ed25519.Verify(ed25519.PublicKey(k), msg, sig)
+	case "pkcs1", "pss":
+		if key["kind"] != "rsa" || !h.Available() {
+			return false
+		}
+		pub := &rsa.PublicKey{N: new(big.Int).SetBytes(unhx(key["n"].(string))), E: int(num(key["e"]))}
+		if scheme == "pkcs1" {
+			return rsa.VerifyPKCS1v15(pub, h, digest(), sig) == nil
+		}
+		return rsa.VerifyPSS(pub, h, digest(), sig, nil) == nil
+	}
+	return false
+}
+
+func oidInts(o asn1.ObjectIdentifier) []int {
+	return append([]int{}, o...)
+}
+
+func certView(c *x509.Certificate) M {
+	exts := []M{}
+	for _, e := range c.Extensions {
+		exts = append(exts, M{"oid": oidInts(e.Id), "critical": e.Critical, "value": hx(e.Value)})
+	}
+	ekus := [][]int{}
+	for _, e := range c.UnknownExtKeyUsage {
+		ekus = append(ekus, oidInts(e))
+	}
+	return M{"version": c.Version, "isCA": c.IsCA,
+		"country":    hx([]byte(strings.Join(c.Subject.Country, ""))),
+		"org":        hx([]byte(strings.Join(c.Subject.Organization, ""))),
+		"orgUnit":    hx([]byte(strings.Join(c.Subject.OrganizationalUnit, ""))),
+		"commonName": hx([]byte(c.Subject.CommonName)),
+		"exts":       exts, "unknownEKUs": ekus, "key": keyMat(c.PublicKey)}
+}
+
+// harness-local copy of the Keymaster structures (the dependency here is encoding/asn1; the struct
+// definition is schema data, re-stated so that the oracle does not call into /repo)
+type hAuthList struct {
+	Purpose                     []int         `asn1:"tag:1,explicit,set,optional"`
+	Algorithm                   int           `asn1:"tag:2,explicit,optional"`
+	KeySize                     int           `asn1:"tag:3,explicit,optional"`
+	Digest                      []int         `asn1:"tag:5,explicit,set,optional"`
+	Padding                     []int         `asn1:"tag:6,explicit,set,optional"`
+	ECCurve                     int           `asn1:"tag:10,explicit,optional"`
+	RSAPublicExponent           int           `asn1:"tag:200,explicit,optional"`
+	RollbackResistance          asn1.Flag     `asn1:"tag:303,explicit,optional"`
+	ActiveDateTime              int           `asn1:"tag:400,explicit,optional"`
+	OriginationExpireDateTime   int           `asn1:"tag:401,explicit,optional"`
+	UsageExpireDateTime         int           `asn1:"tag:402,explicit,optional"`
+	NoAuthRequired              asn1.Flag     `asn1:"tag:503,explicit,optional"`
+	UserAuthType                int           `asn1:"tag:504,explicit,optional"`
+	AuthTimeout                 int           `asn1:"tag:505,explicit,optional"`
+	AllowWhileOnBody            asn1.Flag     `asn1:"tag:506,explicit,optional"`
+	TrustedUserPresenceRequired asn1.Flag     `asn1:"tag:507,explicit,optional"`
+	TrustedConfirmationRequired asn1.Flag     `asn1:"tag:508,explicit,optional"`
+	UnlockedDeviceRequired      asn1.Flag     `asn1:"tag:509,explicit,optional"`
+	AllApplications             asn1.Flag     `asn1:"tag:600,explicit,optional"`
+	ApplicationID               asn1.Flag     `asn1:"tag:601,explicit,optional"`
+	CreationDateTime            int           `asn1:"tag:701,explicit,optional"`
+	Origin                      int           `asn1:"tag:702,explicit,optional"`
+	RootOfTrust                 hRootOfTrust  `asn1:"tag:704,explicit,optional"`
+	OSVersion                   int           `asn1:"tag:705,explicit,optional"`
+	OSPatchLevel                int           `asn1:"tag:706,explicit,optional"`
+	AttestationApplicationID    []byte        `asn1:"tag:709,explicit,optional"`
+	AttestationIDBrand          []byte        `asn1:"tag:710,explicit,optional"`
+	AttestationIDDevice         []byte        `asn1:"tag:711,explicit,optional"`
+	AttestationIDProduct        []byte        `asn1:"tag:712,explicit,optional"`
+	AttestationIDSerial         []byte        `asn1:"tag:713,explicit,optional"`
+	AttestationIDIMEID          []byte        `asn1:"tag:714,explicit,optional"`
+	AttestationIDMEID           []byte        `asn1:"tag:715,explicit,optional"`
+	AttestationIDManufacturer   []byte        `asn1:"tag:716,explicit,optional"`
+	AttestationIDModel          []byte        `asn1:"tag:717,explicit,optional"`
+	VendorPatchLevel            int           `asn1:"tag:718,explicit,optional"`
+	BootPatchLevel              int           `asn1:"tag:719,explicit,optional"`
+}
+type hRootOfTrust struct {
+	VerifiedBootKey   []byte
+	DeviceLocked      bool
+	VerifiedBootState asn1.Enumerated
+	VerifiedBootHash  []byte
+}
+type hKeyDescription struct {
+	AttestationVersion       int
+	AttestationSecurityLevel asn1.Enumerated
+	KeyMasterVersion         int
+	KeyMasterSecurityLevel   asn1.Enumerated
+	AttestationChallenge     []byte
+	UniqueID                 []byte
+	SoftwareEnforced         hAuthList
+	TeeEnforced              hAuthList
+}
+
+func keyDescView(der []byte) any {
+	var kd hKeyDescription
+	if _, err := asn1.Unmarshal(der, &kd); err != nil {
+		return nil
+	}
+	p := []int{}
+	p = append(p, kd.TeeEnforced.Purpose...)
+	return M{"challenge": hx(kd.AttestationChallenge), "swAll": bool(kd.SoftwareEnforced.AllApplications),
+		"teeAll": bool(kd.TeeEnforced.AllApplications), "teeOrigin": kd.TeeEnforced.Origin, "teePurpose": p}
+}
+
+func safetyNetView(raw []byte) any {
+	out := M{"parsed": false, "chainsOK": false, "claimsOK": false, "nonce": ""}
+	tok, err := jwt.ParseSigned(string(raw))
+	if err != nil {
+		return out
+	}
+	out["parsed"] = true
+	var chains [][]*x509.Certificate
+	for _, h := range tok.Headers {
+		cs, err := h.Certificates(x509.VerifyOptions{DNSName: "attest.android.com"})
+		if err != nil {
+			return out
+		}
+		chains = append(chains, cs...)
+	}
+	if len(chains) == 0 || len(chains[0]) == 0 {
+		return out
+	}
+	out["chainsOK"] = true
+	var claims struct {
+		Nonce []byte `json:"nonce"`
+		// remaining members of android.SafetyNetClaims matter only through json type errors
+		TimestampMS                int      `json:"timestampMs"`
+		APKPackageName             string   `json:"apkPackageName"`
+		APKCertificateDigestSHA256 [][]byte `json:"apkCertificateDigestSha256"`
+		CTSProfileMatch            bool     `json:"ctsProfileMatch"`
+		BasicIntegrity             bool     `json:"basicIntegrity"`
+		EvaluationType             string   `json:"evaluationType"`
+	}
+	if err := tok.Claims(chains[0][0].PublicKey, &claims); err != nil {
+		return out
+	}
+	out["claimsOK"] = true
+	out["nonce"] = hx(claims.Nonce)
+	return out
 }
